@@ -446,6 +446,8 @@ const RARE_LEAVES: &[(char, &[&str])] = &[
             "%str(%%%%)", "%str(%%%))", "%str(a%%)", "%str(%%a)",
             // a macro statement inside a double-quoted literal inside %str / %nrstr (allowed there,
             // an open-code recursion error in the other macro text contexts)
+            // quoted literals with a suffix, plain and as string expressions, in value positions
+            "\"&v\"dt", "\"&v.x\"d", "\"a &v\"n", "'a'dt", "\"%m()\"t", "\"&v\"x",
             "%str(\"%let q=1;\")", "%str(\"a %put b; c\")", "%nrstr(call execute(\"%let x=1;\"))", "%str(x \"%global g;\" 'y')",
         ],
     ),
@@ -464,6 +466,7 @@ const RARE_LEAVES: &[(char, &[&str])] = &[
             "%m(a,b)", "%m(k=(1,2))", "(a,(b,c))", "a\nb", "%str(%%)",
             // a macro comment in the middle of a value, with delimiters in its body
             "x %*(; y", "x %*,; y", "x %*); y", "x %* %let; y", "%*(;x", "1 %* a=b, c; ", "%str(a&)", "%str(a&&)b", "%str(a&(b))",
+            "\"&v\"dt", "\"&v.x\"d", "'a'dt", "\"&v\"x", "\"a\"n",
         ],
     ),
     (
